@@ -482,6 +482,10 @@ func (m *model) encValue(d *tv.Desc, v reflect.Value, fl flags) (string, error) 
 		return quote(v.String()), nil
 	case d.K == "bool":
 		return strconv.FormatBool(v.Bool()), nil
+	case d.K == "pool:MethStr":
+		return quote("m:" + v.String()), nil
+	case d.K == "pool:MethSlice":
+		return fmt.Sprintf(`{"n":%d}`, v.Len()), nil
 	case d.K == "ptr":
 		if v.IsNil() {
 			return "null", nil
